@@ -242,6 +242,7 @@ class Ctx:
         self.local.obs = []
         self.local.depth = 0
         self.local.kept = []
+        self.local.last_result = None
 
     def obs(self):
         return self.local.obs
@@ -504,6 +505,7 @@ def run_call(ctx, bc):
         finally:
             ctx.local.render_gate = False
         return {'ok': False, 'v': {'k': 'none'}, 'cls': error_class(e), 'obs': ctx.obs()}, text + _kept_changed(ctx)
+    ctx.local.last_result = res
     return {'ok': True, 'v': project_value(res), 'cls': '', 'obs': ctx.obs()}, _kept_changed(ctx)
 
 
